@@ -54,7 +54,8 @@ fn main() {
     // a logger that accepts every level and discards the record: the arguments of the crate's debug!/info! lines are then evaluated
     // (as they are in any deployment with logging switched on), so a side effect hidden in a log line shows in the monitors
     static SINK: DiscardLogger = DiscardLogger;
-    if log::set_logger(&SINK).is_ok() { log::set_max_level(log::LevelFilter::Trace); }
+    // every second shard runs without a logger (the default of an application that never set one up): log arguments are then NOT evaluated
+    if args.u64("from", 0) % 2 == 0 && log::set_logger(&SINK).is_ok() { log::set_max_level(log::LevelFilter::Trace); }
     // keep panics of the system under test out of the way: they are caught and classified by the monitors
     let verbose = args.get("verbose").is_some();
     std::panic::set_hook(Box::new(move |info| {
